@@ -283,6 +283,11 @@ func (s *Server[StateT]) handleWriteFile(ctx *Context[StateT]) error {
 
 	written, err := s.Handler.HandleWriteFile(ctx, data)
 	if err != nil {
+		// consume the rest of the announced payload, otherwise it would be parsed as commands
+		if _, err := io.Copy(io.Discard, data); err != nil {
+			return fmt.Errorf("discard file data failed: %w", err)
+		}
+
 		return ctx.wr.SendWriteFileError()
 	}
 
